@@ -72,7 +72,9 @@ def lake_build(targets, exe_copy=None):
         rc, out, dt = sh(["lake", "build"] + targets, cwd=LEAN, timeout=3600)
         if rc == 0 and exe_copy and os.path.exists(MODEL_EXE):
             os.makedirs(os.path.dirname(exe_copy), exist_ok=True)
-            shutil.copy2(MODEL_EXE, exe_copy)
+            tmp = "%s.%d.tmp" % (exe_copy, os.getpid())
+            shutil.copy2(MODEL_EXE, tmp)
+            os.replace(tmp, exe_copy)   # atomic: a running copy keeps its inode (no ETXTBSY)
     return rc, out, dt
 
 
@@ -298,7 +300,7 @@ def check(pid, tier, seed):
     proof_broken = None
     if not okx:
         proof_broken = {"stage": "extract", "message": msgx}
-    model_exe = os.path.join(BUILD, pid, "momo_model")
+    model_exe = os.path.join(tier_dir, "momo_model")
     rc, out, dt = lake_build(prop["modules"] + ["momo_model"], exe_copy=model_exe)
     log.append("lake build %s: rc=%d %.1fs" % (" ".join(prop["modules"]), rc, dt))
     if rc != 0:
@@ -368,8 +370,20 @@ def check(pid, tier, seed):
     for ce in compile_errors:
         obligations.append(("correspondence:%s(compile)" % ce["harness"], False))
 
+    # attach the operation lines of the suites named in the failures (the replay of a history is its op file)
+    attached = {}
+    for r in results:
+        od = os.path.join(tier_dir, "out-%s-%d" % (r["harness"], r["seed"]))
+        for fl in [x["fail"] for x in impl_fails if x["harness"] == r["harness"] and x["seed"] == r["seed"]][:20]:
+            for ops in glob.glob(os.path.join(od, "*.ops")):
+                name = os.path.basename(ops)[:-4]
+                if name in fl and name not in attached and len(attached) < 3:
+                    os.makedirs(os.path.join(VERIF, "replays"), exist_ok=True)
+                    dst = os.path.join(VERIF, "replays", "%s-%s-seed%s-%s.ops" % (pid, tier, r["seed"], name))
+                    shutil.copy2(ops, dst)
+                    attached[name] = dst
     if impl_fails:
-        violations.append(("impl-violates-property", {"failing_inputs": impl_fails[:20],
+        violations.append(("impl-violates-property", {"failing_inputs": impl_fails[:20], "op_files": attached,
                            "note": "the implementation contradicted the property's own oracle on these inputs"}, True))
     if (proof_broken or diffs or compile_errors) and not impl_fails:
         found = search_failing_input(prop, exes, seed, tier_dir) if exes else []
